@@ -60,6 +60,7 @@ type Pipeline struct {
 	NCases   int
 	Workers  int
 	Search   bool // monitors only, no model comparison
+	Repeat   int  // C11: re-execute every case this many times
 }
 
 func LoadCase(path string) (Case, error) {
@@ -296,14 +297,39 @@ func (p *Pipeline) Run() *Result {
 		} else if d != nil {
 			res.Disagreements = append(res.Disagreements, DisRec{Line: d.LineIdx, Op: d.Line})
 		}
-		for _, f := range Monitor(p.Prop, cr.c, cr.sch, cr.obs) {
+		var mfails []Failure
+		if p.Repeat > 1 {
+			for k := 1; k < p.Repeat; k++ {
+				obs2, _, err2 := RunImpl(cr.c)
+				if err2 != nil {
+					continue
+				}
+				res.Evaluations += len(obs2)
+				same := len(obs2) == len(cr.obs)
+				for j := 0; same && j < len(obs2); j++ {
+					if obs2[j].Out != cr.obs[j].Out {
+						same = false
+						mfails = append(mfails, Failure{Prop: p.Prop, Line: j,
+							Msg: "nondeterministic: two executions of the same history differ at: " + cr.c.Lines[j]})
+					}
+				}
+				if !same {
+					break
+				}
+			}
+		}
+		mfails = append(mfails, Monitor(p.Prop, cr.c, cr.sch, cr.obs)...)
+		for _, f := range mfails {
 			key := f.Finding + "|" + msgKey(f.Msg)
 			if failSeen[key] {
 				continue
 			}
 			failSeen[key] = true
 			pre := msgKey(f.Msg)
-			small := shrink(cr.c, func(c Case) bool { return p.failsMonitor(c, pre, f.Finding) })
+			small := cr.c
+			if !strings.HasPrefix(f.Msg, "nondeterministic") {
+				small = shrink(cr.c, func(c Case) bool { return p.failsMonitor(c, pre, f.Finding) })
+			}
 			name := fmt.Sprintf("%s-seed%d-fail%d.case", p.Prop, p.Seed, len(res.Failures))
 			file := saveCase(p.OutDir, name, small, "monitor "+p.Prop+" failed on the real machine: "+f.Msg, "finding="+f.Finding)
 			res.Failures = append(res.Failures, FailRec{Prop: p.Prop, Finding: f.Finding, Msg: f.Msg, File: file, Line: f.Line})
